@@ -3,16 +3,27 @@ C09 (verification rejects anything altered; verifying is side-effect free).
 
  1. TLC evaluates spec/Sig.tla, an EXECUTABLE small-field model of mpc/bls and mpc/ps (group elements = discrete logs in GF(46337),
     pairing = product, hashes / Fiat-Shamir oracles = fixed mixing functions, equations transcribed from the Go code):
-      C08: the honest pipeline satisfies every equation for all (n,t), signer subsets and message vectors; prints the case list;
+      C08: the honest pipeline satisfies every equation for all (n,t), signer subsets IN EVERY ORDER (reversed, rotated; thorough: every
+           permutation) and message vectors; prints the case list.  The key generation is modelled with its message pool as an UNORDERED
+           BAG: TLC checks exhaustively (n <= 4) that every order of deliveries lets every party finish, refutes the strict negation
+           ("a public key is accepted only after the sender's commitment"), prints for every (p, r) a schedule in which p's public key
+           overtakes p's commitment at r, and samples further orders by random walks;
       C09: evaluates the perturbation catalogue (every field of every object, several kinds, cross-session substitutions) under TWO
            constant sets and prints the expected verdict and first failing equation of each entry ("accept" under both sets = the field
-           is not bound by any equation or oracle input).
+           is not bound by any equation or oracle input).  Attacks on the Fiat-Shamir binding are explicit adversary cases: compensated
+           multi-field alterations of genuine proofs / requests, forgeries that compute the challenge first and then solve a verification
+           equation for a proof commitment (a proof of knowledge from the public key alone; requests that are not well formed), and the
+           sensitivity of the oracles to every argument and to exchanges of arguments.  TLC shows each attack rejected by the model (the
+           oracle absorbs the component) and ACCEPTED by its strict negation (component not absorbed).
  2. drv sig executes every selected case / catalogue entry on the REAL library through the exported API and byte encodings
-    (in-process DKG with seeded delivery schedules; algebraic perturbations with mathlib on the ASN.1 encodings); everything is verified /
-    signed twice with the same object and once more from the same bytes with fresh instances; serialisations compared before/after.
- 3. TLC validates the recorded results against spec/SigTrace.tla, which RECOMPUTES the expectation of every executed case and evaluates
-    the property monitors (GenuineAccepted, IdenticalPublicMaterial, RejectsAltered, SameVerdictTwice, BytesUnchanged); differences
-    between the model's prediction and the library that do not falsify a monitor are DRIFT.
+    (in-process DKG: TLC's explicit schedules and seeded FIFO / unordered policies; algebraic perturbations with mathlib on the ASN.1
+    encodings); the oracle sensitivity and the challenge-computing forgeries call the library's own oracles through the verif-tag
+    wrappers mpc/ps/verif_oracle.go (discovered at run time; skipped with a NOTE when absent); everything is verified / signed twice with
+    the same object and once more from the same bytes with fresh instances; serialisations compared before/after.
+ 3. TLC validates the recorded results against spec/SigTrace.tla, which RECOMPUTES the expectation of every executed case (and replays
+    every recorded order of deliveries through the key generation model) and evaluates the property monitors (GenuineAccepted,
+    IdenticalPublicMaterial, DkgCompletes, RejectsAltered, ForgeryRejected, ChallengeBindsInput, SameVerdictTwice, BytesUnchanged);
+    differences between the model's prediction and the library that do not falsify a monitor are DRIFT.
 """
 import collections
 import hashlib
@@ -34,8 +45,12 @@ ASSUMPTIONS = [
     "perturbations are algebraic and keep every value well-formed (point + generator, 2*point, scalar + 1, 2*scalar, swap of two entries, "
     "the same field of another session / another proof); malformed encodings belong to C10",
     "party identifiers are 1..n for PS (the convention ps.Prover's evaluation points assume); BLS additionally with identifiers 5,8,11,..",
-    "DKG runs in-process on per-link FIFO queues with seeded delivery schedules (random link, lowest / highest link first, one starved party); "
-    "reliable broadcast is assumed here (C02-C04)",
+    "DKG runs in-process; C08: the message pool is an unordered bag (explicit schedules from TLC incl. every 'public key overtakes commitment' "
+    "pair, seeded random message / newest first / public keys first, and the FIFO policies); C09: per-link FIFO policies; every message is "
+    "delivered exactly once to every addressee (agreement and totality of the broadcast are C02-C04); a key generation counts as stuck when "
+    "nothing is deliverable, nothing was produced and not everybody finished for 5 s and the same order of deliveries reproduces that with 15 s",
+    "Fiat-Shamir binding: the oracle sensitivity and the challenge-computing forgeries need the add-only verif-tag wrappers "
+    "mpc/ps/verif_oracle.go; without them only the compensated alterations (exported API) are executed (see oracle_wrappers_present)",
     "a case whose aggregation step panics (a single signer: empty Lagrange product) counts as rejected; crashes as such belong to C10",
 ]
 
@@ -45,21 +60,63 @@ def tiers(pid):
     if pid == "C08":
         if tr == "quick":
             return dict(MaxN=3, MaxL=3, FullL=3, CatL=[1], Kinds="one")
-        return dict(MaxN=4, MaxL=6, FullL=4, CatL=[1], Kinds="one")
+        return dict(MaxN=4, MaxL=6, FullL=4, CatL=[1], Kinds="all")
     if tr == "quick":
         return dict(MaxN=3, MaxL=3, FullL=3, CatL=[1, 2, 3], Kinds="one")
     return dict(MaxN=4, MaxL=6, FullL=3, CatL=[1, 2, 3, 4, 5, 6], Kinds="all")
 
 
-def write_cfg(wd, name, consts, init, nxt, invs=(), trace=None):
+def write_cfg(wd, name, consts, init, nxt, invs=(), trace=None, view=None):
     with open(os.path.join(wd, name), "w") as f:
-        f.write("CONSTANTS MaxN = %d MaxL = %d FullL = %d CatL = {%s} Kinds = \"%s\"\n" % (
-            consts["MaxN"], consts["MaxL"], consts["FullL"], ", ".join(map(str, consts["CatL"])), consts["Kinds"]))
+        f.write("CONSTANTS MaxN = %d MaxL = %d FullL = %d CatL = {%s} Kinds = \"%s\" DkgN = {%s} Negate = {%s}\n" % (
+            consts["MaxN"], consts["MaxL"], consts["FullL"], ", ".join(map(str, consts["CatL"])), consts["Kinds"],
+            ", ".join(map(str, consts.get("DkgN", [2]))), ", ".join('"%s"' % x for x in consts.get("Negate", []))))
         if trace is not None:
             f.write('CONSTANTS TraceFile = "%s"\n' % trace)
         f.write("INIT %s\nNEXT %s\n" % (init, nxt))
+        if view:
+            f.write("VIEW %s\n" % view)
         for i in invs:
             f.write("INVARIANT %s\n" % i)
+
+
+def tlc_dkg(wd, consts, exec_ns, walks):
+    """Delivery schedules of the key generation (the message pool is an unordered bag).
+     (1) exhaustive: for n = 2..4 EVERY order of deliveries ends with every party finished (invariant DkgLive); the same run prints one
+         deterministic schedule per (p, r, tie) in which p's public key overtakes p's commitment at r;
+     (2) strict negation (a public key is accepted only after the sender's commitment): TLC must find a stuck schedule -- otherwise the
+         model could not tell the two behaviours apart (anti-vacuity);
+     (3) random walks through the unrestricted model: sampled orders.
+    -> (list of TLC results, list of schedules dict(n, pol, sched) to execute, for n in exec_ns)"""
+    small = dict(consts, MaxN=2, MaxL=1, FullL=1, CatL=[1], Kinds="one")
+    write_cfg(wd, "MC_dkg.cfg", dict(small, DkgN=[2, 3, 4]), "InitD", "NextD", ["DkgLive"], view="ViewD")
+    r1 = vlib.run_tlc("Sig", "MC_dkg.cfg", ["Sig.tla"], workdir=wd, timeout=900, keep_prints=["SCHED"], heap="4g")
+    if r1.violation:
+        raise vlib.CheckError("the model of the key generation does not complete under some delivery order (%s)\n%s" % (
+            r1.violation, "\n".join(r1.error_trace)[-3000:]))
+    write_cfg(wd, "MC_dkgneg.cfg", dict(small, DkgN=[2, 3], Negate=["reveal-needs-commit"]), "InitD", "NextD", ["DkgLive"], view="ViewD")
+    r2 = vlib.run_tlc("Sig", "MC_dkgneg.cfg", ["Sig.tla"], workdir=wd, timeout=900, heap="4g")
+    if r2.violation != "DkgLive":
+        raise vlib.CheckError("anti-vacuity: the strict-negation variant of the key generation model (public key accepted only after the "
+                              "commitment) is not refuted by TLC: %r" % r2)
+    write_cfg(wd, "MC_dkgsim.cfg", dict(small, DkgN=sorted(exec_ns)), "InitDAny", "NextD", ["DkgLive"])
+    r3 = vlib.run_tlc("Sig", "MC_dkgsim.cfg", ["Sig.tla"], workdir=wd, workers=1, timeout=900, simulate="num=%d" % walks, depth=200,
+                      tlc_seed=vlib.seed(), keep_prints=["SCHED"], heap="4g")
+    if r3.violation:
+        raise vlib.CheckError("the model of the key generation does not complete on a random walk (%s)" % r3.violation)
+    scheds, seen = [], set()
+    for _, o in r1.prints + r3.prints:
+        k = json.dumps(o["sched"])
+        if o["n"] in exec_ns and k not in seen:
+            seen.add(k)
+            scheds.append(o)
+    targeted = sum(1 for o in scheds if o["pol"]["kind"] == "target")
+    want = sum(n * (n - 1) for n in exec_ns)
+    pairs = set((o["n"], o["pol"]["p"], o["pol"]["r"]) for o in scheds if o["pol"]["kind"] == "target")
+    if len(pairs) != want:
+        raise vlib.CheckError("TLC printed targeted schedules for %d of %d (n, p, r)" % (len(pairs), want))
+    log("dkg model: exhaustive %r; negation refuted at depth %d; %d schedules to execute (%d targeted)" % (r1, r2.depth or len(r2.error_trace), len(scheds), targeted))
+    return [r1, r2, r3], scheds
 
 
 def tlc_model(pid, wd, consts):
@@ -110,9 +167,11 @@ def digests(rng):
             return [p.hex() for p in pick]
 
 
-def make_groups(cases, rng, chunk):
+def make_groups(cases, rng, chunk, bag=False, scheds=(), next_id=0):
     """cases: list of (id, case record). One group = one DKG session (+ a second one when cross-session entries need it). The PS
-    perturbation entries of one signer set share the genuine objects (one group); all other cases are spread over groups of `chunk`."""
+    perturbation entries of one signer set share the genuine objects (one group); all other cases are spread over groups of `chunk`.
+    bag: the key generations of PS groups may use the unordered delivery policies and are reported (validated by TLC);
+    scheds: explicit delivery schedules from TLC: each gets a group of its own with a few of the genuine cases (copies, new ids)."""
     by = collections.OrderedDict()
     for cid, c in cases:
         shared = c["sch"] == "ps" and c["obj"] not in ("none", "fewer")
@@ -125,18 +184,54 @@ def make_groups(cases, rng, chunk):
             c0 = part[0][1]
             groups.append(dict(gid=len(groups), sch=c0["sch"], n=c0["n"], t=c0["t"], L=c0["L"], ids=c0["ids"], sched=rng.randrange(1 << 40),
                                alpha=concretise(rng), digests=digests(rng), cases=[dict(id=cid, c=c) for cid, c in part]))
-    return groups
+    extra = []
+    genuine = collections.defaultdict(list)
+    for cid, c in cases:
+        if c["sch"] == "ps" and c["obj"] == "none":
+            genuine[c["n"]].append(c)
+    for o in scheds:
+        pool = genuine.get(o["n"], [])
+        if not pool:
+            continue
+        c0 = rng.choice(pool)
+        same = [c for c in pool if (c["t"], c["L"]) == (c0["t"], c0["L"])]
+        picked = rng.sample(same, min(3, len(same)))
+        cs = []
+        for c in picked:
+            cs.append(dict(id=next_id, c=c))
+            extra.append((next_id, c))
+            next_id += 1
+        groups.append(dict(gid=len(groups), sch="ps", n=c0["n"], t=c0["t"], L=c0["L"], ids=c0["ids"], sched=rng.randrange(1 << 40),
+                           alpha=concretise(rng), digests=digests(rng), cases=cs, dkg_sched=o["sched"], dkg_pol=o["pol"]))
+    if bag:
+        for g in groups:
+            if g["sch"] == "ps":
+                g["bag"] = True
+                g["dkg_id"] = DKG_ID0 + g["gid"]
+    return groups, extra
 
 
-def run_cases(pid, wd, cases, rng, tag, chunk=12, workers=12):
-    """execute on the real library -> list of result records (one per case)"""
+DKG_ID0 = 10 ** 7
+
+
+def probe_hooks():
     drv = vlib.build_harness()
-    groups = make_groups(cases, rng, chunk)
+    rc, out, err = vlib.run_driver(drv, ["sig"], stdin_obj=dict(probe=True), timeout=120)
+    if rc != 0:
+        raise vlib.CheckError("sig driver failed (rc=%d): %s" % (rc, err))
+    return bool(json.loads(out.splitlines()[0]).get("hooks"))
+
+
+def run_cases(pid, wd, cases, rng, tag, chunk=12, workers=12, bag=False, scheds=()):
+    """execute on the real library -> list of result records (one per case, one per reported key generation)"""
+    drv = vlib.build_harness()
+    groups, extra = make_groups(cases, rng, chunk, bag=bag, scheds=scheds, next_id=max([cid for cid, _ in cases] + [0]) + 1)
+    cases = list(cases) + extra
     # large groups first (better load balance)
     groups.sort(key=lambda g: -len(g["cases"]) * (g["L"] + 2))
     jobfile = os.path.join(wd, "sigjob.%s.json" % tag)
     with open(jobfile, "w") as f:
-        json.dump(dict(workers=workers, timeout_s=120, groups=groups), f)
+        json.dump(dict(workers=workers, timeout_s=120, grace_s=5, groups=groups), f)
     outfile = os.path.join(wd, "sigout.%s.ndjson" % tag)
     rc, _, err = vlib.run_driver(drv, ["sig"], stdin_path=jobfile, stdout_path=outfile, timeout=3000)
     if rc != 0:
@@ -149,8 +244,9 @@ def run_cases(pid, wd, cases, rng, tag, chunk=12, workers=12):
                 summary = o
             else:
                 results.append(o)
-    if summary is None or len(results) != len(cases):
-        raise vlib.CheckError("sig driver returned %d results for %d cases" % (len(results), len(cases)))
+    ndkg = sum(1 for g in groups if "dkg_id" in g)
+    if summary is None or len(results) != len(cases) + ndkg:
+        raise vlib.CheckError("sig driver returned %d results for %d cases and %d key generations" % (len(results), len(cases), ndkg))
     results.sort(key=lambda o: o["id"])
     gmap = {g["gid"]: g for g in groups}
     return results, summary, gmap
@@ -178,6 +274,8 @@ def validate(pid, wd, consts, results, tag):
 
 
 def signature(o):
+    if o["sch"] == "dkg":
+        return "%s/dkg.%s/%s" % (o["mon"], o["field"], o["kind"])
     s = "%s/%s.%s" % (o["mon"], o["sch"], o["obj"])
     if o["field"]:
         s += "." + o["field"]
@@ -194,10 +292,16 @@ MON_TEXT = {
     "RejectsAltered": "an altered object is ACCEPTED",
     "SameVerdictTwice": "verifying / signing the same object again gives a different verdict",
     "BytesUnchanged": "verifying / signing modifies the object (its serialisation differs afterwards)",
+    "DkgCompletes": "a key generation in which every message was delivered (in some order) did not complete at every party",
+    "ForgeryRejected": "a proof / request fabricated or malleated by a Byzantine prover (weak Fiat-Shamir attack) is ACCEPTED",
+    "ChallengeBindsInput": "the Fiat-Shamir challenge does not change when a value the oracle lists is altered / two values are exchanged",
 }
 
 
 def describe_case(c):
+    if c["sch"] == "dkg":
+        return "key generation (%s) n=%d t=%d L=%d policy=%s deliveries (kind, from, to)=%s" % (
+            c["back"], c["n"], c["t"], c["L"], "explicit schedule from TLC" if c.get("explicit") else c.get("policy"), c["sched"])
     s = "%s n=%d t=%d" % (c["sch"], c["n"], c["t"])
     if c["sch"] == "ps":
         s += " L=%d mv=%s" % (c["L"], c["mv"])
@@ -223,8 +327,13 @@ def judge(pid, verdict, results, gmap, r):
         for mon in sorted(o["viol"]):
             nviol += 1
             g = gmap[res["gid"]]
+            if c["sch"] == "dkg":      # re-execute exactly the recorded order of deliveries
+                rg = dict(g, cases=[], dkg_sched=c["sched"], dkg_id=res["id"])
+            else:
+                rg = dict(g, cases=[dict(id=res["id"], c=c)])
+                rg.pop("dkg_id", None)
             replay_obj = dict(property=pid, engine="sig", monitor=mon, predicted_by_model_of_code_as_written=mon in o["predicted"],
-                              group=dict(g, cases=[dict(id=res["id"], c=c)]), result=res)
+                              group=rg, result=res)
             verdict.violation(signature(dict(o, mon=mon)), "%s: %s; case: %s; library: v1=%s v2=%s v3=%s same_bytes=%s stage=%s eq=%s %s" % (
                 mon, MON_TEXT.get(mon, ""), describe_case(c), res["v1"], res["v2"], res["v3"], res["same"], res["stage"], res["eq"],
                 res["err"][:120]), replay_obj)
@@ -253,7 +362,12 @@ def run(pid):
     r1, recs = tlc_model(pid, wd, consts)
     log("%s model: %r, %d records" % (pid, r1, len(recs)))
     model_notes = {}
+    extra_runs, scheds = [], []
     if pid == "C08":
+        extra_runs, scheds = tlc_dkg(wd, consts, exec_ns=list(range(2, consts["MaxN"] + 1)), walks=40 if tr == "quick" else 300)
+        model_notes = dict(dkg_schedules_from_tlc=len(scheds), dkg_targeted_overtakes=sum(1 for o in scheds if o["pol"]["kind"] == "target"),
+                           dkg_exhaustive_states=extra_runs[0].distinct, dkg_negation_refuted=True,
+                           signer_orders=len(set(tuple(c["S"]) for c in recs)))
         # every enumerated case is executed; cases with short vectors twice, in different DKG sessions (other delivery schedule) and
         # with another concretisation of the message alphabet
         cases = [(i, c) for i, c in enumerate(recs)]
@@ -262,6 +376,12 @@ def run(pid):
         cases.sort(key=lambda x: (x[1]["n"], x[1]["t"], x[1]["L"]))
     else:
         cases = [(i, o["c"]) for i, o in enumerate(recs)]
+        hooks = probe_hooks()
+        need = [x for x in cases if x[1]["obj"] in ("oracle", "forge")]
+        if not hooks and need:
+            print("NOTE property=%s the oracle wrappers (mpc/ps/verif_oracle.go, build tag verif) are absent: %d catalogue entries (oracle "
+                  "sensitivity, challenge-computing forgeries) are not executed; the compensated alterations (exported API only) are" % (pid, len(need)))
+            cases = [x for x in cases if x[1]["obj"] not in ("oracle", "forge")]
         # what the model says about the catalogue
         nb = collections.Counter()
         for o in recs:
@@ -276,9 +396,13 @@ def run(pid):
             model_collisions=sum(1 for o in recs if o["m"]["collide"]),
             model_noop_entries=sum(1 for o in recs if o["c"]["obj"] not in ("none", "objsign", "objverify") and not o["m"]["changed"]),
             model_side_effects=sorted(set("%s.%s" % (o["c"]["sch"], o["c"]["obj"]) for o in recs if o["m"]["v2"] != o["m"]["v"] or not o["m"]["same"])),
+            fiat_shamir_attacks_in_model=sum(1 for o in recs if o["c"]["obj"] in ("mall", "forge", "oracle") and o["must"]),
+            fiat_shamir_attacks_accepted_by_strict_negation=sum(1 for o in recs if o["c"]["obj"] in ("mall", "forge", "oracle") and o["must"]
+                                                                and o["m"]["neg"] == "accept"),
+            oracle_wrappers_present=hooks, entries_skipped_without_wrappers=0 if hooks else len(need),
         )
         log("%s model notes: %s" % (pid, json.dumps(model_notes)))
-    results, summary, gmap = run_cases(pid, wd, cases, rng, "main", chunk=10 if tr == "quick" else 24)
+    results, summary, gmap = run_cases(pid, wd, cases, rng, "main", chunk=10 if tr == "quick" else 24, bag=(pid == "C08"), scheds=scheds)
     log("%s driver: %r" % (pid, summary))
     r2 = validate(pid, wd, consts, results, "main")
     log("%s validation: %r" % (pid, r2))
@@ -293,9 +417,12 @@ def run(pid):
     accepted = sum(1 for o in results if o["v1"])
     samples = [sample_of(results[i]) for i in sorted(set([0, len(results) // 3, 2 * len(results) // 3, len(results) - 1]))]
     cov = dict(
-        states=max(r1.distinct + r2.distinct, 1), transitions=max(r1.generated + r2.generated, 1),
+        states=max(r1.distinct + r2.distinct + sum(x.distinct for x in extra_runs), 1),
+        transitions=max(r1.generated + r2.generated + sum(x.generated for x in extra_runs), 1),
         traces_validated_against_impl=len(results), samples=samples,
-        exhaustive=len(results) == len(cases) and len(cases) >= len(recs), cases_enumerated=len(recs),
+        exhaustive=len(results) >= len(cases) and len(cases) >= len(recs), cases_enumerated=len(recs),
+        key_generations_validated=sum(1 for o in results if o["c"]["sch"] == "dkg"),
+        key_generations_with_overtaking_public_key=sum(1 for _, o in r2.prints if o["sch"] == "dkg" and o["kind"] == "reveal-before-commit"),
         configs=[dict(spec="Sig", constants=consts, distinct=r1.distinct, generated=r1.generated),
                  dict(spec="SigTrace", results=len(results), distinct=r2.distinct, generated=r2.generated)],
         cases_executed=len(results), accepted=accepted, rejected=len(results) - accepted, dkg_sessions=summary["dkgs"],
@@ -341,7 +468,19 @@ def self_test(pid, wd, consts, results):
         bad.append(x), want.append((900003, "SameVerdictTwice"))
         x = dict(g, id=900004, same=False)
         bad.append(x), want.append((900004, "BytesUnchanged"))
+    d = pick(lambda o: o["c"]["sch"] == "dkg" and o["v1"])
+    if d:
+        bad.append(dict(d, id=900010, v1=False, v2=False, v3=False, pubeq=False, eq="stuck"))
+        want.append((900010, "DkgCompletes"))
+        bad.append(dict(d, id=900011, pubeq=False))
+        want.append((900011, "IdenticalPublicMaterial"))
     if pid == "C09":
+        for obj, mon in (("mall", "ForgeryRejected"), ("forge", "ForgeryRejected"), ("oracle", "ChallengeBindsInput")):
+            p = pick(lambda o: o["c"]["obj"] == obj and not o["v1"] and o["changed"] and o["c"]["kind"] != "gs")
+            if p:
+                i = 900200 + len(bad)
+                bad.append(dict(p, id=i, v1=True, v2=True, v3=True, eq="ok"))
+                want.append((i, mon))
         for obj in ("req", "pok", "tpk", "sig", "wit", "share", "assign", "fewer", "msg"):
             p = pick(lambda o: o["c"]["obj"] == obj and not o["v1"] and o["changed"] and not (o["c"]["obj"] == "req" and o["c"]["field"] == "mprime"))
             if p:
